@@ -559,6 +559,14 @@ def judge_complex(pe, res, parts, op, lname, rname):
                         full[k] = xv
                     return f2(full)
                 rf2 = combine(fr2, [g2[k] for k in all_obs], [refs[k] for k in all_obs])
+                # the structurally vanishing derivative is computed by the library as a cancellation between the
+                # non-vanishing partial derivatives of intermediate results: rounding floor from those magnitudes
+                gmax = max(abs(x) for w in ('real', 'imag') for x in _cformula(op, w, vals, [False] * 4)[1])
+                for k in all_obs:
+                    for n, m in refs[k].mag.items():
+                        rf2.mag[n] = rf2.mag.get(n, 0.0) + gmax * m
+                    for cn, m in refs[k].cgmag.items():
+                        rf2.cgmag[cn] = rf2.cgmag.get(cn, 0.0) + gmax * m
                 try:
                     cmp_obs(rf2, part, what, rtol=1e-9, atol_scale=1e-11, check_rv=True)
                 except Violation:
